@@ -8,11 +8,16 @@ theorem trivialOnly_ok {w : String} {x : Bool} {r b : Expr × List Stmt × Nat} 
   unfold trivialOnly
   cases x <;> cases h : r.2.1 <;> simp [eq_comm]
 
+def isNameE : Expr → Bool
+  | .name .. => true
+  | _ => false
+
 /-- What every successful expression visit guarantees. -/
 structure VInv (cfg : Config) (e : Expr) (n : Nat) (e' : Expr) (D : List Stmt) (n' : Nat) : Prop where
   hoists : HoistsOk cfg n D n'
   quiet : quiet cfg e' = true
   same : D = [] → e' = e
+  isName : isNameE e' = isNameE e
 
 structure VsInv (cfg : Config) (es : List Expr) (n : Nat) (es' : List Expr) (D : List Stmt) (n' : Nat) : Prop where
   hoists : HoistsOk cfg n D n'
@@ -31,13 +36,13 @@ theorem visitE_inv (cfg : Config) : ∀ (e : Expr) (n : Nat) (e' : Expr) (D : Li
     visitE cfg e n = .ok (e', D, n') → VInv cfg e n e' D n'
   | .name .., n, e', D, n', h => by
       vopen h; vclose h; obtain ⟨rfl, rfl, rfl⟩ := h
-      exact ⟨rfl, rfl, fun _ => rfl⟩
+      exact ⟨rfl, rfl, fun _ => rfl, rfl⟩
   | .const .., n, e', D, n', h => by
       vopen h; vclose h; obtain ⟨rfl, rfl, rfl⟩ := h
-      exact ⟨rfl, rfl, fun _ => rfl⟩
+      exact ⟨rfl, rfl, fun _ => rfl, rfl⟩
   | .noneMarker, n, e', D, n', h => by
       vopen h; vclose h; obtain ⟨rfl, rfl, rfl⟩ := h
-      exact ⟨rfl, rfl, fun _ => rfl⟩
+      exact ⟨rfl, rfl, fun _ => rfl, rfl⟩
   | .attr i v a c, n, e', D, n', h => by
       vopen h
       obtain ⟨v1, d1, n1, hv, h⟩ := h
@@ -46,7 +51,7 @@ theorem visitE_inv (cfg : Config) : ∀ (e : Expr) (n : Nat) (e' : Expr) (D : Li
       obtain ⟨rfl, rfl, rfl⟩ := h
       have iv := visitE_inv cfg _ _ _ _ _ hv
       have he := ensure_spec' iv.quiet hE
-      refine ⟨iv.hoists.append he.1, by simp [Malt.Anf.quiet, he.2.1, he.2.2.1], fun hd => ?_⟩
+      refine ⟨iv.hoists.append he.1, by simp [Malt.Anf.quiet, he.2.1, he.2.2.1], fun hd => ?_, rfl⟩
       obtain ⟨hd1, hd2⟩ := app_nil2 hd
       rw [he.2.2.2 hd2, iv.same hd1]
   | .subscript i v s c, n, e', D, n', h => by
@@ -61,7 +66,7 @@ theorem visitE_inv (cfg : Config) : ∀ (e : Expr) (n : Nat) (e' : Expr) (D : Li
       have he1 := ensure_spec' iv.quiet hE1
       have he2 := ensure_spec' is.quiet hE2
       refine ⟨((iv.hoists.append is.hoists).append he1.1).append he2.1,
-        by simp [Malt.Anf.quiet, he1.2.1, he1.2.2.1, he2.2.1, he2.2.2.1], fun hd => ?_⟩
+        by simp [Malt.Anf.quiet, he1.2.1, he1.2.2.1, he2.2.1, he2.2.2.1], fun hd => ?_, rfl⟩
       obtain ⟨hd, hd4⟩ := app_nil2 hd
       obtain ⟨hd, hd3⟩ := app_nil2 hd
       obtain ⟨hd1, hd2⟩ := app_nil2 hd
@@ -81,7 +86,7 @@ theorem visitE_inv (cfg : Config) : ∀ (e : Expr) (n : Nat) (e' : Expr) (D : Li
       have he2 := ensureList_spec' i2.quiet hE2
       have he3 := ensureList_spec' i3.quiet hE3
       refine ⟨((((i1.hoists.append i2.hoists).append i3.hoists).append he1.1).append he2.1).append he3.1,
-        by simp [Malt.Anf.quiet, he1.2.1, he1.2.2.1, he2.2.1, he2.2.2.1, he3.2.1, he3.2.2.1], fun hd => ?_⟩
+        by simp [Malt.Anf.quiet, he1.2.1, he1.2.2.1, he2.2.1, he2.2.2.1, he3.2.1, he3.2.2.1], fun hd => ?_, rfl⟩
       obtain ⟨hd, hd6⟩ := app_nil2 hd
       obtain ⟨hd, hd5⟩ := app_nil2 hd
       obtain ⟨hd, hd4⟩ := app_nil2 hd
@@ -93,7 +98,7 @@ theorem visitE_inv (cfg : Config) : ∀ (e : Expr) (n : Nat) (e' : Expr) (D : Li
       obtain ⟨v1, d1, n1, hv, h⟩ := h
       vclose h; obtain ⟨rfl, rfl, rfl⟩ := h
       have iv := visitE_inv cfg _ _ _ _ _ hv
-      exact ⟨iv.hoists, by simp [Malt.Anf.quiet, iv.quiet], fun hd => by rw [iv.same hd]⟩
+      exact ⟨iv.hoists, by simp [Malt.Anf.quiet, iv.quiet], fun hd => by rw [iv.same hd], rfl⟩
   | .boolop i isAnd vs, n, e', D, n', h => by
       vopen h
       obtain ⟨vs1, d1, n1, hv, h⟩ := h
@@ -103,7 +108,7 @@ theorem visitE_inv (cfg : Config) : ∀ (e : Expr) (n : Nat) (e' : Expr) (D : Li
       have iv := visitEs_inv cfg _ _ _ _ _ hv
       have he := ensureList_spec' iv.quiet hE
       simp only [pseudoSelected] at hp
-      refine ⟨iv.hoists.append he.1, by simp [Malt.Anf.quiet, he.2.1, he.2.2.1, hp], fun hd => ?_⟩
+      refine ⟨iv.hoists.append he.1, by simp [Malt.Anf.quiet, he.2.1, he.2.2.1, hp], fun hd => ?_, rfl⟩
       obtain ⟨hd1, hd2⟩ := app_nil2 hd
       rw [he.2.2.2 hd2, iv.same hd1]
   | .unary i op v, n, e', D, n', h => by
@@ -114,7 +119,7 @@ theorem visitE_inv (cfg : Config) : ∀ (e : Expr) (n : Nat) (e' : Expr) (D : Li
       obtain ⟨rfl, rfl, rfl⟩ := h
       have iv := visitE_inv cfg _ _ _ _ _ hv
       have he := ensure_spec' iv.quiet hE
-      refine ⟨iv.hoists.append he.1, by simp [Malt.Anf.quiet, he.2.1, he.2.2.1], fun hd => ?_⟩
+      refine ⟨iv.hoists.append he.1, by simp [Malt.Anf.quiet, he.2.1, he.2.2.1], fun hd => ?_, rfl⟩
       obtain ⟨hd1, hd2⟩ := app_nil2 hd
       rw [he.2.2.2 hd2, iv.same hd1]
   | .binop i op l r, n, e', D, n', h => by
@@ -129,7 +134,7 @@ theorem visitE_inv (cfg : Config) : ∀ (e : Expr) (n : Nat) (e' : Expr) (D : Li
       have he1 := ensure_spec' iv.quiet hE1
       have he2 := ensure_spec' is.quiet hE2
       refine ⟨((iv.hoists.append is.hoists).append he1.1).append he2.1,
-        by simp [Malt.Anf.quiet, he1.2.1, he1.2.2.1, he2.2.1, he2.2.2.1], fun hd => ?_⟩
+        by simp [Malt.Anf.quiet, he1.2.1, he1.2.2.1, he2.2.1, he2.2.2.1], fun hd => ?_, rfl⟩
       obtain ⟨hd, hd4⟩ := app_nil2 hd
       obtain ⟨hd, hd3⟩ := app_nil2 hd
       obtain ⟨hd1, hd2⟩ := app_nil2 hd
@@ -150,7 +155,7 @@ theorem visitE_inv (cfg : Config) : ∀ (e : Expr) (n : Nat) (e' : Expr) (D : Li
       have he1 := ensure_spec' iv.quiet hE1
       have he2 := ensureList_spec' is.quiet hE2
       refine ⟨((iv.hoists.append is.hoists).append he1.1).append he2.1,
-        by simp [Malt.Anf.quiet, he1.2.1, he1.2.2.1, he2.2.1, he2.2.2.1, hlen], fun hd => ?_⟩
+        by simp [Malt.Anf.quiet, he1.2.1, he1.2.2.1, he2.2.1, he2.2.2.1, hlen], fun hd => ?_, rfl⟩
       obtain ⟨hd, hd4⟩ := app_nil2 hd
       obtain ⟨hd, hd3⟩ := app_nil2 hd
       obtain ⟨hd1, hd2⟩ := app_nil2 hd
@@ -170,7 +175,7 @@ theorem visitE_inv (cfg : Config) : ∀ (e : Expr) (n : Nat) (e' : Expr) (D : Li
       have he2 := ensure_spec' i2.quiet hE2
       have he3 := ensure_spec' i3.quiet hE3
       refine ⟨((((i1.hoists.append i2.hoists).append i3.hoists).append he1.1).append he2.1).append he3.1,
-        by simp [Malt.Anf.quiet, he1.2.1, he1.2.2.1, he2.2.1, he2.2.2.1, he3.2.1, he3.2.2.1], fun hd => ?_⟩
+        by simp [Malt.Anf.quiet, he1.2.1, he1.2.2.1, he2.2.1, he2.2.2.1, he3.2.1, he3.2.2.1], fun hd => ?_, rfl⟩
       obtain ⟨hd, hd6⟩ := app_nil2 hd
       obtain ⟨hd, hd5⟩ := app_nil2 hd
       obtain ⟨hd, hd4⟩ := app_nil2 hd
@@ -188,7 +193,7 @@ theorem visitE_inv (cfg : Config) : ∀ (e : Expr) (n : Nat) (e' : Expr) (D : Li
       have he1 := ensure_spec' is.quiet hE1
       simp only [pseudoSelected] at hp
       refine ⟨(iv.hoists.append is.hoists).append he1.1,
-        by simp [Malt.Anf.quiet, he1.2.1, he1.2.2.1, iv.quiet, hp], fun hd => ?_⟩
+        by simp [Malt.Anf.quiet, he1.2.1, he1.2.2.1, iv.quiet, hp], fun hd => ?_, rfl⟩
       obtain ⟨hd, hd3⟩ := app_nil2 hd
       obtain ⟨hd1, hd2⟩ := app_nil2 hd
       rw [he1.2.2.2 hd3, iv.same hd1, is.same hd2]
@@ -200,7 +205,7 @@ theorem visitE_inv (cfg : Config) : ∀ (e : Expr) (n : Nat) (e' : Expr) (D : Li
       obtain ⟨rfl, rfl, rfl⟩ := h
       have iv := visitEs_inv cfg _ _ _ _ _ hv
       have he := ensureList_spec' iv.quiet hE
-      refine ⟨iv.hoists.append he.1, by simp [Malt.Anf.quiet, he.2.1, he.2.2.1], fun hd => ?_⟩
+      refine ⟨iv.hoists.append he.1, by simp [Malt.Anf.quiet, he.2.1, he.2.2.1], fun hd => ?_, rfl⟩
       obtain ⟨hd1, hd2⟩ := app_nil2 hd
       rw [he.2.2.2 hd2, iv.same hd1]
   | .seq i .tuple es c, n, e', D, n', h => by
@@ -210,12 +215,12 @@ theorem visitE_inv (cfg : Config) : ∀ (e : Expr) (n : Nat) (e' : Expr) (D : Li
       split at h
       · next hc =>
         vclose h; obtain ⟨rfl, rfl, rfl⟩ := h
-        exact ⟨iv.hoists, by simp [Malt.Anf.quiet, iv.quiet, hc], fun hd => by rw [iv.same hd]⟩
+        exact ⟨iv.hoists, by simp [Malt.Anf.quiet, iv.quiet, hc], fun hd => by rw [iv.same hd], rfl⟩
       · rcases hE : ensureList cfg "Tuple" "elts" vs1 n1 with ⟨vs2, h1, n2⟩
         simp only [hE] at h; vclose h
         obtain ⟨rfl, rfl, rfl⟩ := h
         have he := ensureList_spec' iv.quiet hE
-        refine ⟨iv.hoists.append he.1, by simp [Malt.Anf.quiet, he.2.1, he.2.2.1], fun hd => ?_⟩
+        refine ⟨iv.hoists.append he.1, by simp [Malt.Anf.quiet, he.2.1, he.2.2.1], fun hd => ?_, rfl⟩
         obtain ⟨hd1, hd2⟩ := app_nil2 hd
         rw [he.2.2.2 hd2, iv.same hd1]
   | .seq i .list es c, n, e', D, n', h => by
@@ -225,12 +230,12 @@ theorem visitE_inv (cfg : Config) : ∀ (e : Expr) (n : Nat) (e' : Expr) (D : Li
       split at h
       · next hc =>
         vclose h; obtain ⟨rfl, rfl, rfl⟩ := h
-        exact ⟨iv.hoists, by simp [Malt.Anf.quiet, iv.quiet, hc], fun hd => by rw [iv.same hd]⟩
+        exact ⟨iv.hoists, by simp [Malt.Anf.quiet, iv.quiet, hc], fun hd => by rw [iv.same hd], rfl⟩
       · rcases hE : ensureList cfg "List" "elts" vs1 n1 with ⟨vs2, h1, n2⟩
         simp only [hE] at h; vclose h
         obtain ⟨rfl, rfl, rfl⟩ := h
         have he := ensureList_spec' iv.quiet hE
-        refine ⟨iv.hoists.append he.1, by simp [Malt.Anf.quiet, he.2.1, he.2.2.1], fun hd => ?_⟩
+        refine ⟨iv.hoists.append he.1, by simp [Malt.Anf.quiet, he.2.1, he.2.2.1], fun hd => ?_, rfl⟩
         obtain ⟨hd1, hd2⟩ := app_nil2 hd
         rw [he.2.2.2 hd2, iv.same hd1]
   | .starred i v c, n, e', D, n', h => by
@@ -238,14 +243,14 @@ theorem visitE_inv (cfg : Config) : ∀ (e : Expr) (n : Nat) (e' : Expr) (D : Li
       obtain ⟨v1, d1, n1, hv, h⟩ := h
       vclose h; obtain ⟨rfl, rfl, rfl⟩ := h
       have iv := visitE_inv cfg _ _ _ _ _ hv
-      exact ⟨iv.hoists, by simp [Malt.Anf.quiet, iv.quiet], fun hd => by rw [iv.same hd]⟩
+      exact ⟨iv.hoists, by simp [Malt.Anf.quiet, iv.quiet], fun hd => by rw [iv.same hd], rfl⟩
   | .namedexpr i t v, n, e', D, n', h => by
       vopen h
       obtain ⟨v1, d1, n1, hv, s1, d2, n2, hs, h⟩ := h
       vclose h; obtain ⟨rfl, rfl, rfl⟩ := h
       have iv := visitE_inv cfg _ _ _ _ _ hv
       have is := visitE_inv cfg _ _ _ _ _ hs
-      refine ⟨iv.hoists.append is.hoists, by simp [Malt.Anf.quiet, iv.quiet, is.quiet], fun hd => ?_⟩
+      refine ⟨iv.hoists.append is.hoists, by simp [Malt.Anf.quiet, iv.quiet, is.quiet], fun hd => ?_, rfl⟩
       obtain ⟨hd1, hd2⟩ := app_nil2 hd
       rw [iv.same hd1, is.same hd2]
   | .comp .., n, e', D, n', h => by simp [visitE] at h
@@ -257,7 +262,7 @@ theorem visitE_inv (cfg : Config) : ∀ (e : Expr) (n : Nat) (e' : Expr) (D : Li
       have i2 := visitE_inv cfg _ _ _ _ _ hb
       have i3 := visitEs_inv cfg _ _ _ _ _ he
       refine ⟨(i1.hoists.append i2.hoists).append i3.hoists,
-        by simp [Malt.Anf.quiet, i1.quiet, i2.quiet, i3.quiet], fun hd => ?_⟩
+        by simp [Malt.Anf.quiet, i1.quiet, i2.quiet, i3.quiet], fun hd => ?_, rfl⟩
       obtain ⟨hd, hd3⟩ := app_nil2 hd
       obtain ⟨hd1, hd2⟩ := app_nil2 hd
       rw [i1.same hd1, i2.same hd2, i3.same hd3]
@@ -275,7 +280,7 @@ theorem visitE_inv (cfg : Config) : ∀ (e : Expr) (n : Nat) (e' : Expr) (D : Li
       have i7 := visitEs_inv cfg _ _ _ _ _ h7
       refine ⟨(((((i1.hoists.append i2.hoists).append i3.hoists).append i4.hoists).append i5.hoists).append
           i6.hoists).append i7.hoists,
-        by simp [Malt.Anf.quiet, i1.quiet, i2.quiet, i3.quiet, i4.quiet, i5.quiet, i6.quiet, i7.quiet], fun hd => ?_⟩
+        by simp [Malt.Anf.quiet, i1.quiet, i2.quiet, i3.quiet, i4.quiet, i5.quiet, i6.quiet, i7.quiet], fun hd => ?_, rfl⟩
       obtain ⟨hd, hd7⟩ := app_nil2 hd
       obtain ⟨hd, hd6⟩ := app_nil2 hd
       obtain ⟨hd, hd5⟩ := app_nil2 hd
@@ -288,14 +293,14 @@ theorem visitE_inv (cfg : Config) : ∀ (e : Expr) (n : Nat) (e' : Expr) (D : Li
       obtain ⟨v1, d1, n1, hv, h⟩ := h
       vclose h; obtain ⟨rfl, rfl, rfl⟩ := h
       have iv := visitEs_inv cfg _ _ _ _ _ hv
-      exact ⟨iv.hoists, by simp [Malt.Anf.quiet, iv.quiet], fun hd => by rw [iv.same hd]⟩
+      exact ⟨iv.hoists, by simp [Malt.Anf.quiet, iv.quiet], fun hd => by rw [iv.same hd], rfl⟩
   | .withitem i ce ov, n, e', D, n', h => by
       vopen h
       obtain ⟨v1, d1, n1, hv, s1, d2, n2, hs, h⟩ := h
       vclose h; obtain ⟨rfl, rfl, rfl⟩ := h
       have iv := visitE_inv cfg _ _ _ _ _ hv
       have is := visitEs_inv cfg _ _ _ _ _ hs
-      refine ⟨iv.hoists.append is.hoists, by simp [Malt.Anf.quiet, iv.quiet, is.quiet], fun hd => ?_⟩
+      refine ⟨iv.hoists.append is.hoists, by simp [Malt.Anf.quiet, iv.quiet, is.quiet], fun hd => ?_, rfl⟩
       obtain ⟨hd1, hd2⟩ := app_nil2 hd
       rw [iv.same hd1, is.same hd2]
   | .other i k ats ks, n, e', D, n', h => by
@@ -317,7 +322,7 @@ theorem visitE_inv (cfg : Config) : ∀ (e : Expr) (n : Nat) (e' : Expr) (D : Li
         have hl2 := ensureList_length cfg "Dict" "values" (List.drop ((ats.headD "0").toNat?.getD 0) ks1) n2
         rw [hE1] at hl1; rw [hE2] at hl2
         have hr := take_drop_rebuild _ ks1 a2 b2 hl1 hl2
-        refine ⟨(iv.hoists.append he1.1).append he2.1, ?_, fun hd => ?_⟩
+        refine ⟨(iv.hoists.append he1.1).append he2.1, ?_, fun hd => ?_, rfl⟩
         · simp only [Malt.Anf.quiet, hk, if_true, hr.1, hr.2, quiets_append, he1.2.1, he1.2.2.1, he2.2.1, he2.2.2.1,
             Bool.and_self]
         · obtain ⟨hd, hd3⟩ := app_nil2 hd
@@ -330,7 +335,7 @@ theorem visitE_inv (cfg : Config) : ∀ (e : Expr) (n : Nat) (e' : Expr) (D : Li
         obtain ⟨ks1, d1, n1, hv, h⟩ := h
         vclose h; obtain ⟨rfl, rfl, rfl⟩ := h
         have iv := visitEs_inv cfg _ _ _ _ _ hv
-        exact ⟨iv.hoists, by simp [Malt.Anf.quiet, hk0, hk, iv.quiet], fun hd => by rw [iv.same hd]⟩
+        exact ⟨iv.hoists, by simp [Malt.Anf.quiet, hk0, hk, iv.quiet], fun hd => by rw [iv.same hd], rfl⟩
       next hk1 =>
       split at h
       · next hk =>       -- Yield
@@ -341,7 +346,7 @@ theorem visitE_inv (cfg : Config) : ∀ (e : Expr) (n : Nat) (e' : Expr) (D : Li
         obtain ⟨rfl, rfl, rfl⟩ := h
         have iv := visitEs_inv cfg _ _ _ _ _ hv
         have he := ensureList_spec' iv.quiet hE
-        refine ⟨iv.hoists.append he.1, by simp [Malt.Anf.quiet, hk0, hk1, hk, he.2.1, he.2.2.1], fun hd => ?_⟩
+        refine ⟨iv.hoists.append he.1, by simp [Malt.Anf.quiet, hk0, hk1, hk, he.2.1, he.2.2.1], fun hd => ?_, rfl⟩
         obtain ⟨hd1, hd2⟩ := app_nil2 hd
         rw [he.2.2.2 hd2, iv.same hd1]
       next hk2 =>
@@ -354,7 +359,7 @@ theorem visitE_inv (cfg : Config) : ∀ (e : Expr) (n : Nat) (e' : Expr) (D : Li
         obtain ⟨-, hnil, rfl, rfl, rfl⟩ := h
         have iv := visitEs_inv cfg _ _ _ _ _ hv
         have he := ensureList_spec' iv.quiet hE
-        refine ⟨iv.hoists.append he.1, ?_, fun hd => ?_⟩
+        refine ⟨iv.hoists.append he.1, ?_, fun hd => ?_, rfl⟩
         · simp only [Malt.Anf.quiet, hk0, hk1, hk2, hk, if_true, he.2.1, he.2.2.1, Bool.and_self]; simp
         · obtain ⟨hd1, hd2⟩ := app_nil2 hd
           rw [he.2.2.2 hd2, iv.same hd1]
@@ -368,7 +373,7 @@ theorem visitE_inv (cfg : Config) : ∀ (e : Expr) (n : Nat) (e' : Expr) (D : Li
         obtain ⟨-, hnil, rfl, rfl, rfl⟩ := h
         have iv := visitEs_inv cfg _ _ _ _ _ hv
         have he := ensureList_spec' iv.quiet hE
-        refine ⟨iv.hoists.append he.1, ?_, fun hd => ?_⟩
+        refine ⟨iv.hoists.append he.1, ?_, fun hd => ?_, rfl⟩
         · simp only [Malt.Anf.quiet, hk0, hk1, hk2, hk3, hk, if_true, he.2.1, he.2.2.1, Bool.and_self]; simp
         · obtain ⟨hd1, hd2⟩ := app_nil2 hd
           rw [he.2.2.2 hd2, iv.same hd1]
@@ -394,7 +399,7 @@ theorem visitE_inv (cfg : Config) : ∀ (e : Expr) (n : Nat) (e' : Expr) (D : Li
         have hl2 := ensureList_length cfg k "format_spec" (List.drop 1 ks1) n2
         rw [hE1] at hl1; rw [hE2] at hl2
         have hr := take_drop_rebuild _ ks1 a2 b2 hl1 hl2
-        refine ⟨(iv.hoists.append he1.1).append he2.1, ?_, fun hd => ?_⟩
+        refine ⟨(iv.hoists.append he1.1).append he2.1, ?_, fun hd => ?_, rfl⟩
         · simp only [Malt.Anf.quiet, hk0, hk1, hk2, hk3, hk4, hk, if_true, hr.1, hr.2, quiets_append, he1.2.1,
             he1.2.2.1, he2.2.1, he2.2.2.1, Bool.and_self]
           simpa using hconv
